@@ -71,7 +71,13 @@ class DynamicSchedulingFromPlan(Scheduling):
         self.alternate = 0
         temporary_resources = cluster.get_available_resources()
         max_allocations_iteration = len(temporary_resources)
-        for task in sorted(task_pool, key=lambda x: x.est):
+        # Sort from plan order (stable): task_pool is a set of objects hashed by
+        # their string id, so ties on est would otherwise depend on the
+        # interpreter hash seed.
+        for task in sorted(
+            [t for t in workflow_plan.tasks if t in task_pool],
+            key=lambda x: x.est
+        ):
             if len(allocations) >= max_allocations_iteration:
                 break
             if (
